@@ -172,22 +172,39 @@ fn alt_pair(x: Cfg, p: &str, order: Order, alpha: Alphabet) -> PairSpace {
     )
 }
 
-/// Join arguments built from <= k segments of a hostile segment set, with / without leading '/'.
+/// Join arguments built from <= k tokens of a hostile token set, glued with '/' or with the
+/// foreign separator '\\', with / without a leading separator.
 fn hostile_args(k: usize) -> Vec<String> {
-    let segs = ["..", ".", "a", "Z", "S", ""];
+    let toks = ["..", ".", "a", "Z", "S", ""];
+    let seps = ["/", "\\"];
     let mut out: Vec<String> = vec![];
     let mut level: Vec<String> = vec![String::new()];
     for depth in 0..k {
         let mut next = vec![];
         for base in &level {
-            for s in segs {
-                let x = if depth == 0 { s.to_string() } else { format!("{}/{}", base, s) };
-                next.push(x);
+            for t in toks {
+                if depth == 0 {
+                    next.push(t.to_string());
+                } else {
+                    for sep in seps {
+                        // the foreign separator only in the shorter strings (keeps the sweep small)
+                        if sep == "\\" && depth >= 3 {
+                            continue;
+                        }
+                        next.push(format!("{}{}{}", base, sep, t));
+                    }
+                }
             }
         }
         out.extend(next.iter().cloned());
         out.extend(next.iter().map(|x| format!("/{}", x)));
+        out.extend(next.iter().filter(|x| !x.contains('/')).map(|x| format!("\\{}", x)));
         level = next;
+    }
+    // a few other odd spellings of "go up"
+    for odd in ["%2e%2e/S", "..%2fS", "...", "..../S", ". ./S", ".. /S", " ../S", "..\u{2215}S", "\u{2025}/S", "a/..\\..\\S", "..\\..\\..\\S/f"] {
+        out.push(odd.to_string());
+        out.push(format!("a/{}", odd));
     }
     out.sort();
     out.dedup();
@@ -310,12 +327,16 @@ fn hostile_sweep(cfg: &Cfg, p: &str, k: usize, vio: &mut Vec<Violation>, counter
                 });
                 let log = b.ctl.disarm();
                 n += 1;
+                let runaway = b.ctl.runaway.load(std::sync::atomic::Ordering::SeqCst);
                 let mk = |tail: &str, what: String| Violation {
                     property: "C07".into(),
                     signature: format!("{}|hostile-join|{}|{}", cfg.label(), kind, tail),
                     summary: format!("join({:?}) then {} on {} from state #{}: {}", arg, kind, cfg.label(), si, what),
                     replay: json!({"engine": "hostile", "configuration": cfg.label(), "state": states[*si].iter().map(|o| o.show()).collect::<Vec<_>>(), "join_argument": arg, "call": kind}),
                 };
+                if runaway {
+                    local.push(mk("runaway", format!("made more than {} calls into the underlying filesystem (does not terminate)", CALL_HORIZON)));
+                }
                 match r {
                     Err(m) => local.push(mk("panic", format!("panicked: {}", m))),
                     Ok(Err(e)) => {
@@ -375,7 +396,11 @@ pub fn run_c07(ctx: &Ctx) -> i32 {
     spaces.push(alt_pair(Cfg::Mem, "/Z", Order::Asc, a22.clone()));
     spaces.push(alt_pair(Cfg::Mem, "/Z/Y", Order::Desc, a4.clone()));
     spaces.push(alt_pair(Cfg::Phys, "/Z", Order::Asc, a4.clone()));
+    // odd characters in component names (foreign separator, leading dots, blanks)
+    let odd = Universe::new("U_odd", &["/a", "/a\\b", "/..a", "/a b", "/a/a\\b", "/a/.. "]);
+    spaces.push(alt_pair(Cfg::Mem, "/Z", Order::Asc, alphabet(odd.clone(), &[b"x"], 1, false)));
     if thorough {
+        spaces.push(alt_pair(Cfg::Phys, "/Z/Y", Order::Asc, alphabet(odd.clone(), &[b"x"], 1, true)));
         spaces.push(alt_pair(Cfg::Mem, "", Order::Asc, a22.clone()));
         spaces.push(alt_pair(Cfg::Mem, "/Z/Y/X", Order::Asc, alphabet(u22(), &[b"", b"x"], 3, true)));
         spaces.push(alt_pair(Cfg::Phys, "/Z/Y", Order::Asc, a22.clone()));
@@ -405,7 +430,7 @@ pub fn run_c07(ctx: &Ctx) -> i32 {
         runs += n;
     }
     let mut hs = Stats {
-        label: format!("hostile join arguments (<= {} segments of {{.., ., a, Z, S, \"\"}}, with/without leading '/') x 18 call kinds x 3 states", k),
+        label: format!("hostile join arguments (<= {} tokens of {{.., ., a, Z, S, \"\"}} glued with '/' or '\\', with/without leading separator, plus odd spellings) x 18 call kinds x 3 states", k),
         states: 3,
         transitions: runs,
         fixpoint: true,
